@@ -27,6 +27,7 @@ func genDHCP(prop string, seed uint64, tier string) Scenario {
 	c.ProbeMin, c.OfflineMin, c.PurgeMin = 2, 5, 61
 	hb := [][2]int{{24, 25}, {24, 28}, {25, 27}, {26, 28}, {27, 29}, {28, 30}, {28, 29}}[r.weighted([]int{2, 2, 2, 2, 3, 4, 3})]
 	c.HomeBits, c.NFBits = hb[0], hb[1]
+	c.NFLow = c.NFBits <= 28 && r.chance(1, 3)
 	c.HostLLA = true
 	c.DHCP = true
 	c.DHCPMode = 1 + r.n(3)
@@ -55,12 +56,12 @@ func genDHCP(prop string, seed uint64, tier string) Scenario {
 		sc.Extra = map[string]int{"quick": 1}
 	}
 	// weights: disc req decl rel capture release adv tick foreign session(dora) fsfail contention
-	wts := []int{18, 26, 5, 4, 5, 3, 10, 5, 6, 12, 0, 6}
+	wts := []int{18, 26, 5, 4, 5, 3, 10, 5, 6, 12, 0, 6, 4}
 	if prop == "C12" {
-		wts = []int{18, 26, 3, 3, 9, 6, 8, 4, 4, 14, 0, 5}
+		wts = []int{18, 26, 3, 3, 9, 6, 8, 4, 4, 14, 0, 5, 2}
 	}
 	if prop == "C18" {
-		wts = []int{10, 12, 3, 2, 4, 2, 6, 3, 4, 30, 3, 4}
+		wts = []int{10, 12, 3, 2, 4, 2, 6, 3, 4, 30, 3, 4, 1}
 		nops = 2 + r.n(14)
 		sc.Family = "lease"
 	}
@@ -103,6 +104,26 @@ func genDHCP(prop string, seed uint64, tier string) Scenario {
 				}
 			}
 			sc.Ops = append(sc.Ops, Op{K: "disc", M: m1, P: p1}, Op{K: "disc", M: m2, P: p2}, Op{K: "req", M: m1, P: p1}, Op{K: "req", M: m2, P: p2})
+		case 12:
+			// a stale offer: A is offered X and does not take it; its unconfirmed lease is freed (ticker)
+			// or its offer runs out; B asks for X by name and is acknowledged; A comes back with the
+			// same transaction (retransmitted DISCOVER) or simply requests what it was offered
+			a := client()
+			b := (a + nclients - 1) % nclients // candidate selector 1 of b is "the offer of the next client", i.e. of a
+			sc.Ops = append(sc.Ops, Op{K: "disc", M: a})
+			switch r.n(4) {
+			case 0, 1:
+				sc.Ops = append(sc.Ops, Op{K: "tick"})
+			case 2:
+				sc.Ops = append(sc.Ops, Op{K: "adv", D: 2})
+			}
+			sc.Ops = append(sc.Ops, Op{K: "disc", M: b, I: 1}, Op{K: "req", M: b})
+			if r.chance(2, 3) {
+				sc.Ops = append(sc.Ops, Op{K: "disc", M: a, X: 1})
+			}
+			if r.chance(1, 2) {
+				sc.Ops = append(sc.Ops, Op{K: "req", M: a})
+			}
 		}
 	}
 	return sc
